@@ -142,6 +142,54 @@ Proof.
   unfold ex_ops. repeat apply Forall_cons; try apply Forall_nil; try exact I; try apply Tk; apply P; lia.
 Qed.
 
+(* one poll of the example: count 5 polled with fromIndex 2, page size 2 *)
+Example C09_one_poll_instance :
+  0 <= 2 <= loglen ex_log /\ wb_pages ex_log ex_pg 5 /\
+  exists b, poll (Some 5) ex_pg ex_T 2 = PBatch 5 b 2 /\ map (fun u => e_uid (u_ev u)) b = [4; 5].
+Proof.
+  split; [vm_compute; split; discriminate|]. split; [apply ex_wb; lia|].
+  eexists. split; [vm_compute; reflexivity|vm_compute; reflexivity].
+Qed.
+
+(* a malformed event, and the same pages with every event replaced by a malformed one: same control flow *)
+Definition ex_pg_bad : nat -> Z -> page_ans := fun _ s => Page (map (fun _ => ex_bad 0) (seg ex_log s (ex_n s))) (s + Z.of_nat (ex_n s)).
+Example C09_robustness_hypotheses_satisfiable :
+  to_unconfirmed (ex_bad 2) = None /\ (forall k s, pnext (ex_pg k s) = pnext (ex_pg_bad k s)) /\
+  pshape (poll (Some 5) ex_pg ex_T 2) = PBatch 5 [] 2 /\ poll (Some 5) ex_pg_bad ex_T 2 = PBatch 5 [] 2.
+Proof. split; [reflexivity|]. split; [intros k s; reflexivity|]. split; vm_compute; reflexivity. Qed.
+
+(* tick liveness: after the two batches of the example have been delivered, event 4 (level 2, block height 100) is pending;
+   it is not confirmed at height 101 and confirmed at height 102: all hypotheses of C09_pending_event_forwarded_when_final hold *)
+Definition ex_H : Z -> header := fun _ => {| h_ts := 1000; h_height := 100 |}.
+Definition ex_s5 : wstate := final ex_c (init 0) (firstn 5 ex_ops).
+Definition ex_u4 : uevent := {| u_ev := ex_good 4 2; u_msg := {| m_sender := 77; m_cl := 2; m_p0 := 1; m_tok := None |}; u_chain := None |}.
+Example C09_liveness_hypotheses_satisfiable :
+  let pre := [OTick 101 100000 (fun _ => Some true) ex_hd] in
+  InvH ex_H ex_s5 /\ Forall (okH ex_H) pre /\ okH ex_H (OTick 102 100000 (fun _ => Some true) ex_hd) /\
+  w_dead (fst (step ex_c (final ex_c ex_s5 pre) (OTick 102 100000 (fun _ => Some true) ex_hd))) = false /\
+  pending_in (w_pending ex_s5) 5 ex_u4 /\ m_sender (u_msg ex_u4) = c_bridge ex_c /\
+  (forall h' n' mc' hd', In (OTick h' n' mc' hd') pre -> confirmed (c_mainnet ex_c) (u_msg ex_u4) (ex_H 5) n' h' = false) /\
+  confirmed (c_mainnet ex_c) (u_msg ex_u4) (ex_H 5) 100000 102 = true /\
+  In (mkfwd ex_u4 (ex_H 5)) (o_fwd (snd (step ex_c (final ex_c ex_s5 pre) (OTick 102 100000 (fun _ => Some true) ex_hd)))).
+Proof.
+  cbv zeta.
+  assert (OK : forall h n, okH ex_H (OTick h n (fun _ => Some true) ex_hd)).
+  { intros h n b hh E. unfold ex_hd in E. injection E as <-. reflexivity. }
+  assert (I5 : InvH ex_H ex_s5).
+  { unfold ex_s5, ex_ops. cbn [firstn final]. repeat (apply step_InvH; [|exact I]). apply Inv_init. }
+  assert (P : pending_in (w_pending ex_s5) 5 ex_u4).
+  { assert (E : w_pending ex_s5 = [ {| pb_hash := 5; pb_hdr := None; pb_evs := [ {| u_ev := ex_good 1 1; u_msg := {| m_sender := 77; m_cl := 1; m_p0 := 1; m_tok := None |}; u_chain := None |}; ex_u4;
+                                        {| u_ev := ex_good 5 0; u_msg := {| m_sender := 77; m_cl := 0; m_p0 := 1; m_tok := None |}; u_chain := None |} ] |} ]) by (vm_compute; reflexivity).
+    rewrite E. eexists. split; [left; reflexivity|]. split; [reflexivity|]. right. left. reflexivity. }
+  assert (NC : forall h' n' mc' hd', In (OTick h' n' mc' hd') [OTick 101 100000 (fun _ => Some true) ex_hd] -> confirmed (c_mainnet ex_c) (u_msg ex_u4) (ex_H 5) n' h' = false).
+  { intros h' n' mc' hd' [E|[]]. injection E as <- <- _ _. vm_compute. reflexivity. }
+  assert (D : w_dead (fst (step ex_c (final ex_c ex_s5 [OTick 101 100000 (fun _ => Some true) ex_hd]) (OTick 102 100000 (fun _ => Some true) ex_hd))) = false) by (vm_compute; reflexivity).
+  assert (C : confirmed (c_mainnet ex_c) (u_msg ex_u4) (ex_H 5) 100000 102 = true) by (vm_compute; reflexivity).
+  assert (PRE : Forall (okH ex_H) [OTick 101 100000 (fun _ => Some true) ex_hd]) by (constructor; [apply OK|constructor]).
+  split; [exact I5|]. split; [exact PRE|]. split; [apply OK|]. split; [exact D|]. split; [exact P|]. split; [reflexivity|]. split; [exact NC|]. split; [exact C|].
+  apply (C09_pending_event_forwarded_when_final ex_c ex_H); auto.
+Qed.
+
 Print Assumptions C09_one_poll.
 Print Assumptions C09_partition_all_histories.
 Print Assumptions C09_kept_plain.
